@@ -1150,3 +1150,124 @@ def mkF (n dt : String) (flags : List String) (c : Option String) : SField :=
   { name := n.toList, datatype := dt.toList, flags := flags.map (·.toList), comment := c.map (·.toList) }
 
 end Verif.C09
+
+/-! ### closed form for arbitrary histories -/
+
+namespace Verif.C09
+open Verif.Py Verif.Tables
+open Verif.C08 (Val)
+
+/-- is the request accepted in the state a reader sees?  (not an append onto / with compression, and
+its records could be staged) -/
+def accepts (a : Abs) (q : WReq) : Bool := !(q.append && (q.gzip || a.compressed)) && q.staged.isOk
+
+/-- the requests of a history that are accepted, in order -/
+def acceptedIn : Abs → List WReq → List WReq
+  | _, [] => []
+  | a, q :: qs => if accepts a q then q :: acceptedIn (absStep a q) qs else acceptedIn a qs
+
+/-- the list-level effect of an accepted request on the content -/
+def specStep (c : Option (List Line)) (q : WReq) : Option (List Line) :=
+  some ((if q.append then c.getD [] else []) ++ linesOf q)
+
+/-- the last overwrite of a list of requests and what follows it -/
+def afterLastOverwrite : List WReq → Option (WReq × List WReq)
+  | [] => none
+  | q :: qs =>
+    match afterLastOverwrite qs with
+    | some p => some p
+    | none => if q.append then none else some (q, qs)
+
+/-- "the records of the last overwrite followed by the later appends": over the ACCEPTED requests
+`acc` of a history started at content `c` -/
+def closedForm (c : Option (List Line)) (acc : List WReq) : Option (List Line) :=
+  match afterLastOverwrite acc with
+  | some (ow, apps) => some (linesOf ow ++ apps.flatMap linesOf)
+  | none => if acc.isEmpty then c else some (c.getD [] ++ acc.flatMap linesOf)
+
+theorem absStep_not_accepted (a : Abs) (q : WReq) (h : accepts a q = false) : absStep a q = a := by
+  unfold accepts at h
+  unfold absStep
+  cases hrej : (q.append && (q.gzip || a.compressed))
+  · cases hst : q.staged with
+    | error e => simp
+    | ok l => simp [hrej, hst, Except.isOk, Except.toBool] at h
+  · simp
+
+theorem absStep_accepted (a : Abs) (q : WReq) (h : accepts a q = true) :
+    (absStep a q).content = specStep a.content q := by
+  unfold accepts at h
+  unfold absStep specStep
+  cases hrej : (q.append && (q.gzip || a.compressed))
+  · cases hst : q.staged with
+    | error e => simp [hrej, hst, Except.isOk, Except.toBool] at h
+    | ok l => simp [linesOf, hst]
+  · simp [hrej] at h
+
+theorem fold_absStep_accepted (a : Abs) (qs : List WReq) :
+    qs.foldl absStep a = (acceptedIn a qs).foldl absStep a := by
+  induction qs generalizing a with
+  | nil => rfl
+  | cons q qs ih =>
+    simp only [List.foldl_cons, acceptedIn]
+    cases h : accepts a q
+    · simp only [Bool.false_eq_true, if_false]
+      rw [absStep_not_accepted a q h]; exact ih a
+    · simp only [if_true, List.foldl_cons]; exact ih _
+
+theorem fold_content_spec (a : Abs) (qs : List WReq) :
+    (qs.foldl absStep a).content = (acceptedIn a qs).foldl specStep a.content := by
+  induction qs generalizing a with
+  | nil => rfl
+  | cons q qs ih =>
+    simp only [List.foldl_cons, acceptedIn]
+    cases h : accepts a q
+    · simp only [Bool.false_eq_true, if_false]
+      rw [absStep_not_accepted a q h]; exact ih a
+    · simp only [if_true, List.foldl_cons]
+      rw [ih (absStep a q), absStep_accepted a q h]
+
+theorem fold_spec_closed (c : Option (List Line)) (l : List WReq) : l.foldl specStep c = closedForm c l := by
+  induction l generalizing c with
+  | nil => rfl
+  | cons q qs ih =>
+    rw [List.foldl_cons, ih (specStep c q)]
+    unfold closedForm
+    simp only [afterLastOverwrite]
+    cases h : afterLastOverwrite qs with
+    | some p => rfl
+    | none =>
+      simp only [List.isEmpty_cons, Bool.false_eq_true, if_false]
+      cases ha : q.append
+      · simp only [Bool.false_eq_true, if_false]
+        cases qs with
+        | nil => simp [specStep, ha]
+        | cons x xs => simp [specStep, ha]
+      · simp only [if_true]
+        cases qs with
+        | nil => simp [specStep, ha]
+        | cons x xs => simp [specStep, ha, List.append_assoc]
+
+theorem stage_append (fields : List Field) (a b : List (List Val)) (la lb : List Line)
+    (ha : stage fields a = .ok la) (hb : stage fields b = .ok lb) : stage fields (a ++ b) = .ok (la ++ lb) := by
+  induction a generalizing la with
+  | nil =>
+    have : la = [] := by simpa [stage, pure, Except.pure] using ha.symm
+    subst this; simpa using hb
+  | cons v vs ih =>
+    unfold stage at ha ⊢
+    rw [List.mapM_cons] at ha
+    rw [List.cons_append, List.mapM_cons]
+    cases h1 : encodeLine fields v with
+    | error e => simp [h1, bind, Except.bind] at ha
+    | ok l =>
+      cases h2 : vs.mapM (encodeLine fields) with
+      | error e => simp [h1, h2, bind, Except.bind] at ha
+      | ok ls =>
+        simp [h1, h2, bind, Except.bind, pure, Except.pure] at ha
+        subst ha
+        have := ih ls h2
+        unfold stage at this
+        simp [this, bind, Except.bind, pure, Except.pure]
+
+end Verif.C09
